@@ -197,6 +197,16 @@ def streams(tier, rng):
             sv = v - 2**w if v >= 2**(w - 1) else v
             add(str(sv), rd_s + ':1', 'sintd', (w, sv))
             add(('+' if rng.random() < 0.3 else '') + str(v), 'PD:1', 'int64f', v)
+    # decimal integers written with leading zeros stay decimal (no octal reading of 010), through every integer reader
+    for lit, v in (('010', 10), ('0100', 100), ('08', 8), ('09', 9), ('019', 19), ('-012', -12), ('+0777', 777), ('0000001000', 1000),
+                   ('00', 0), ('-0', 0), ('007', 7), ('-08', -8), ('0377', 377), ('04294967295', 4294967295), ('-02147483648', -2147483648)):
+        for w, rd_s, rd_u in ((32, 'PI32', 'PU32'), (64, 'PI64', 'PU64')):
+            if v >= 0:
+                add(lit, rd_u + ':1', 'uint', (w, v))
+            if -2**(w - 1) <= v < 2**(w - 1):
+                add(lit, rd_s + ':1', 'sintd', (w, v))
+        if v >= 0 and not lit.startswith('-'):
+            add(lit, 'PD:1', 'int64f', v)
     # unit table
     for (name, uid, mult) in us:
         for nm in {name, name.lower(), name.upper(), name.capitalize(), ''.join(ch.upper() if i % 2 else ch.lower() for i, ch in enumerate(name))}:
